@@ -4,6 +4,8 @@ findings with their exact failure signature.  Root-cause text comes from the rul
 import json, sys, re
 prop = sys.argv[1]
 RULES = [
+    (r'tail-text', "text that follows a child element (ElementTree 'tail') is dropped silently by the parser: neither kept nor reported"),
+    (r'exterior-whitespace', "the parser strips leading/trailing whitespace of element text also for whitespace-preserving types (xs:string): '  hi  ' comes back as 'hi'"),
     (r'xml:lang|xml:space|lyric-language|undeclared', "attributes the schema references as xml:lang / xml:space are handled under the un-prefixed names 'lang' / 'space' (accepted, serialised without the xml: prefix; the qualified names are rejected; lyric-language loses use=required; xml:space has no resolvable type: KeyError('type'))"),
     (r"/name(/|$|@)|property 'name'", "the schema attribute 'name' collides with the read-only Python property XMLElement.name: dot assignment raises AttributeError('property ... has no setter')"),
     (r'xlink:|/link(/|$|@)|/opus(/|$|@)|/part-link(/|$|@)', "xlink:* attribute references are never resolved (NotImplementedError(ref) is built but not raised): every attribute operation on link / opus / part-link elements fails with AttributeError about None"),
@@ -28,7 +30,7 @@ for o in ev['coverage']['violations_list']:
                 what = w; break
     if what is None:
         print('UNMATCHED', o['oid'], o.get('detail')); continue
-    oid = o['oid'].split('@')[0]
+    oid = re.sub(r'@(warmed|pristine|warmed-reverse)$', '', o['oid'])
     if any(e['property'] == prop and e['obligation'] == oid and e.get('signature') == o.get('detail') for e in kf['findings']):
         continue
     kf['findings'].append(dict(property=prop, obligation=oid, signature=o.get('detail'), what=oid.split('/', 1)[1] + ': ' + what)); n += 1
